@@ -35,6 +35,12 @@
 //   an expiring alarm is realised as raise(SIGALRM) at a scheduling point (decision 4) - the real timer never fires (alarm(0) at the
 //   end of every case).  "40"/"41" records: d1 d2 d3 d4 r.  Answers in OS-level modes: 0 stop, 2 = the callback first calls
 //   setAlarm(3600) and continues, 3 = calls setAlarm(3600) and stops, anything else continue.
+//   op 10 (OS-level modes only; ignored in direct mode) = the run ends with an exception: after the scheduling point "7 .." (the
+//   increment of shutdown(bool) follows) run() THROWS; Application::main() catches (catch (...)) and calls shutdown(true), which calls
+//   the application's onUnhandledException() - overridden here by a version that RETURNS (the default one calls exit) and that is a
+//   window in which signals can arrive: scheduling-point code 16 (recorded again after every arrival handled there; decision 0 = the
+//   report returns).  The rest of the flow is never executed; the final record "0 blocked_ pending_" is printed from the
+//   application's shutdown() hook, the last thing shutdown(bool) calls.
 #include "common.h"
 #include <signal.h>
 #include <unistd.h>
@@ -51,6 +57,7 @@ static std::vector<ll> answers; static size_t ansPos = 0;
 struct App;
 static App* app = 0;
 static void yieldPoint(int k);
+static bool recording = true;
 
 static int  osMode = 0;                 // 0 = direct mode
 static const int NSIG_ = 4;
@@ -88,10 +95,15 @@ struct App : public Potassco::Application {
 	// The schedule is executed either on a fresh object or (every other case) inside run() of a SECOND main() call on an object whose
 	// first run completed: Application::main() must start every run with delivery unblocked and nothing remembered, so both are the
 	// same for the model.
-	std::vector<ll>* ops; bool active;
-	App() : ops(0), active(false) {}
+	std::vector<ll>* ops; bool active; bool errorPath;
+	App() : ops(0), active(false), errorPath(false) {}
 	void execOps();
 	void run() { if (active) { execOps(); } }
+	struct RunFailed {};                 // what run() throws for op 10
+	// main(): catch (...) { shutdown(true); } -> ... onUnhandledException() ... shutdown()
+	void onUnhandledException() { if (errorPath) { yieldPoint(16); } }                      // the error report: returns
+	void shutdown() { if (errorPath) { errorPath = false; yieldPoint(0); recording = false; } }   // end of shutdown(bool): final state
+	using Potassco::Application::shutdown;
 	void info(const char*) const {}
 	bool onSignal(int s) {
 		o.add(20); o.add(toId(s));
@@ -111,7 +123,6 @@ static int instCode() {
 	Potassco::Application* i = Potassco::Application::getInstance();
 	return i == 0 ? 0 : (i == self ? 1 : 2);
 }
-static bool recording = true;
 static ll nextDecision() {
 	if (decLeft == 0) return 0;
 	if (decLeft > 0) --decLeft;
@@ -150,6 +161,7 @@ void App::execOps() {
 			case 7:  if (osMode) { yieldPoint(13); { App snapshot(*this); (void)snapshot; } } break;
 			case 8:  if (osMode) { yieldPoint(14); setAlarm(3600); } break;
 			case 9:  if (osMode) { yieldPoint(15); setAlarm(0); } break;
+			case 10: if (osMode) { yieldPoint(7); errorPath = true; throw RunFailed(); } break;   // main() catches: shutdown(true)
 			default: break;
 		}
 	}
